@@ -52,6 +52,9 @@ EAGER = os.environ.get("XH_EAGER", "0") == "1"
 FK = os.environ.get("XH_FK", "both")  # which fault kinds are free in this condition: both | raise | die
 VAL = int(os.environ.get("XH_VAL", "0"))
 MAXLEN = int(os.environ.get("XH_LEN", "3"))
+LV = int(os.environ.get("XH_LV", "2"))  # C11: length bound of the symbolic values
+HADOLD = int(os.environ.get("XH_OLD", "-1"))  # C11: fix the had_old flag in this condition (-1: symbolic)
+UFIX = int(os.environ.get("XH_UF", "-2"))  # C11 helpers: fix the position of the user-code fault (-2: symbolic)
 MOUNT = os.environ.get("XH_MOUNT", "0") == "1"
 MIRROR = os.environ.get("XH_MIRROR", "1") == "1"
 
@@ -298,13 +301,17 @@ def _mismatch(what, a, b):
     os._exit(12)
 
 
-def _c11_verdict(target, had_old, old, new, out1, snap1, out2, snap2, value2):
+def _c11_verdict(target, had_old, old, get_new, out1, snap1, out2, snap2, value2):
+    """get_new(): the complete new content (None if a fault-free write of this value fails) -- computed on demand."""
     tgt = [e for e in snap1 if e[0] == target]
     others = [e for e in snap1 if e[0] != target]
     if tgt:
         _, data, mt = tgt[0]
         is_old = lambda: had_old and mt == OLD_T and (data is old or data == old)  # noqa: E731
-        is_new = lambda: new is not None and (data is new or data == new)  # noqa: E731
+
+        def is_new():
+            new = get_new()
+            return new is not None and (data is new or data == new)
     else:
         is_old = lambda: not had_old  # noqa: E731
         is_new = lambda: False  # noqa: E731
@@ -331,10 +338,12 @@ def c11_write(had_old: bool, old: bytes, vs: str, vb: bytes, vb2: bytes, uf: int
     """
     Atomic replacement.  k1 < k2: operations that raise OSError (-1: none); d: operation before which the process dies.
 
-    pre: len(old) <= 2 and len(vs) <= 2 and len(vb) <= 2 and len(vb2) <= 1
+    pre: len(old) <= 2 and len(vs) <= LV and len(vb) <= LV and len(vb2) <= 1
     pre: all(ord(c) < 128 for c in vs)
     pre: k1 >= -1 and (k2 == -1 or k2 > k1 >= 0) and d >= -1
     pre: -1 <= uf <= 2
+    pre: HADOLD < 0 or had_old == (HADOLD == 1)
+    pre: UFIX < -1 or uf == UFIX
     post: _
     """
     begin()
@@ -350,7 +359,6 @@ def c11_write(had_old: bool, old: bytes, vs: str, vb: bytes, vb2: bytes, uf: int
         return True
     value = _c11_value(vs, vb, bad)
     value2 = {"text": "later\r\n", "json": ["later"], "pickle": ("later",), "touch": None}.get(STORE, b"later\r\n")
-    new, nops = _c11_reference(value, vb2)
     faults = [k for k in (k1, k2) if k != -1]
     fs = ModelFS(faults=faults, die_at=d, eager=EAGER)
     out1 = _c11_scenario(fs, 1, had_old, old, value, vb2, uf, ub, value2)
@@ -359,7 +367,14 @@ def c11_write(had_old: bool, old: bytes, vs: str, vb: bytes, vb2: bytes, uf: int
     out2 = _c11_scenario(fs, 2, had_old, old, value, vb2, uf, ub, value2)
     snap2 = _snapshot(fs)
     target = str(_path("u.dat"))
-    good = _c11_verdict(target, had_old, old, new, out1, snap1, out2, snap2, value2)
+    cache = []
+
+    def get_new():
+        if not cache:
+            cache.append(_c11_reference(value, vb2)[0])
+        return cache[0]
+
+    good = _c11_verdict(target, had_old, old, get_new, out1, snap1, out2, snap2, value2)
     if MIRROR and not is_tracing():
         r1, rs1, r2, rs2 = _c11_real(had_old, old, value, vb2, uf, ub, value2, faults, d)
         mine = (out1, _norm_snap(snap1), out2, _norm_snap(snap2))
@@ -368,7 +383,7 @@ def c11_write(had_old: bool, old: bytes, vs: str, vb: bytes, vb2: bytes, uf: int
             _mismatch("c11_write", mine, real)
     if not good:
         return False
-    if fired == 0 and uf == -1 and new is not None:
+    if fired == 0 and out1[0] == "ok":
         return True  # no fault happened on this path (covered by C12): not a witness for the vacuity twin
     return ok()
 
@@ -483,7 +498,8 @@ def c12_value(had_old: bool, old: bytes, inacc: bool) -> bool:
     post: _
     """
     begin()
-    value = {"json": JSON_VALUES, "pickle": PICKLE_VALUES, "touch": [None]}[STORE][VAL]
+    L = {"json": JSON_VALUES, "pickle": PICKLE_VALUES, "touch": [None]}[STORE]
+    value = L[VAL % len(L)]
     if not _c12_common(value, had_old, old, inacc):
         return False
     return ok()
